@@ -2,7 +2,7 @@
 (* Trace specification for the protocol sub-universe of C04.  Observation kinds (one per line):                      *)
 (*  "phist":    {tid, steps: <<[a, b, real, parts, (fresh)]..>>}  a sequence of A.can_assign(B) through ONE new       *)
 (*              Checker (new Value objects per step); parts = the real verdicts of the union's members (the steps     *)
-(*              that follow); fresh = the verdict of the same pair through a new Checker (history slices only)        *)
+(*              just before); fresh = the verdict of the same pair through a new Checker (history slices only)        *)
 (*  "psnip":    {tid, a, b, diagnosed}   `def use(p: A)` called with an expression of type B through the visitor      *)
 (*  "pmembers": {tid, proto, isproto, real}   TypeObject.protocol_members of the run-time protocol                    *)
 (*  "prt":      {tid, o, pt, present, valok, isinst}   CPython: members present on o / values of the declared types / *)
@@ -23,6 +23,7 @@ DevVerdict(f) == CASE f = "propany" -> "dev:protocol-property-member-untyped"
                    [] f = "noneany" -> "dev:none-valued-attribute-satisfies-protocol-member"
                    [] f = "artretry" -> "dev:int-accepted-for-protocol-via-float-promotion"
                    [] f = "rescue" -> "dev:runtime-protocol-literal-accepted-by-isinstance"
+                   [] f = "callany" -> "dev:literal-callable-object-signature-unknown"
 Poisoned == "dev:protocol-cache-poisoned-by-recursion-guard"
 Unsound(A, B, real) == real /\ ~PHasBare(A) /\ ~PHasBare(B) /\ ~RefSound(A, B)
 \* the verdict for an unsound acceptance that the fresh model reproduces: the class of the mechanism whose repair flips it
@@ -32,14 +33,22 @@ SomeTrue(s) == \E i \in 1..Len(s) : s[i]
 
 \* (verdicts of a history carry the index of the step: "viol:Sound@3")
 ChkS(cond, tid, i, v) == IF cond THEN TRUE ELSE Say(tid, v \o "@" \o ToString(i))
-RECURSIVE JudgeSteps(_, _, _, _, _)
-JudgeSteps(steps, i, cache, cacheR, tid) ==
+RECURSIVE JudgeSteps(_, _, _, _, _, _, _)
+\* mvs / pfs: the model's verdicts of the steps so far and whether each was in the poisoned-cache class (the parts of a
+\* union are the steps just before it)
+JudgeSteps(steps, i, cache, cacheR, tid, mvs, pfs) ==
     IF i > Len(steps) THEN TRUE
     ELSE LET s == steps[i]  A == s.a  B == s.b
              m == Accept(A, B, cache, RealF)            \* the code as it is, with the cache this history built
              mr == Accept(A, B, cacheR, RepF)           \* the same history through the repaired caching rule
              mf == AcceptF(A, B, RealF)                 \* a new Checker
              poisoned == m.r /\ ~mf /\ mr.r = mf        \* what the deviating caching rule predicts here
+             np == Len(s.parts)
+             pidx == (i - np)..(i - 1)
+             \* a union law that fails although the model reproduces every verdict involved, one of them being a
+             \* poisoned-cache verdict, is that deviation showing through the law
+             lawDev == /\ s.real = m.r /\ \A j \in pidx : steps[j].real = mvs[j]
+                       /\ (poisoned \/ \E j \in pidx : pfs[j])
          IN /\ ChkS(s.real = m.r, tid, i, "drift:protocol_can_assign")
             /\ ChkS(~Unsound(A, B, s.real), tid, i,
                    IF s.real = m.r /\ poisoned THEN Poisoned
@@ -48,18 +57,24 @@ JudgeSteps(steps, i, cache, cacheR, tid) ==
             /\ ChkS((A = B /\ IsPT(A)) => s.real, tid, i, "viol:Reflexive")
             /\ ChkS(B = Never => s.real, tid, i, "viol:NeverBottom")
             /\ ChkS(A = TObj => s.real, tid, i, "viol:ObjectTop")
-            /\ ChkS((B.k = "union" /\ s.parts # << >>) => (s.real <=> AllTrue(s.parts)), tid, i, "viol:UnionLeft")
-            /\ ChkS((A.k = "union" /\ B.k # "union" /\ s.parts # << >>) => (SomeTrue(s.parts) => s.real), tid, i, "viol:UnionRight")
+            /\ ChkS((B.k = "union" /\ np > 0) => (s.real <=> AllTrue(s.parts)), tid, i, IF lawDev THEN Poisoned ELSE "viol:UnionLeft")
+            /\ ChkS((A.k = "union" /\ B.k # "union" /\ np > 0) => (SomeTrue(s.parts) => s.real), tid, i,
+                    IF lawDev THEN Poisoned ELSE "viol:UnionRight")
             /\ IF "fresh" \in DOMAIN s
                THEN /\ ChkS(s.fresh = mf, tid, i, "drift:protocol_can_assign_fresh")
                     /\ ChkS(s.real = s.fresh, tid, i, IF s.real = m.r /\ s.fresh = mf /\ poisoned THEN Poisoned ELSE "viol:HistoryIndependent")
                ELSE TRUE
-            /\ JudgeSteps(steps, i + 1, m.c, mr.c, tid)
+            /\ JudgeSteps(steps, i + 1, m.c, mr.c, tid, Append(mvs, m.r), Append(pfs, poisoned))
 
+\* through the visitor the attribute context reads a property with its declared return type, so the property deviation
+\* does not occur on this route (all other switches as in RealF)
+SnipF == [RealF EXCEPT !.propany = FALSE]
 JudgeSnip(o) ==
-    LET real == ~o.diagnosed  mf == AcceptF(o.a, o.b, RealF)
+    LET real == ~o.diagnosed  mf == AcceptF(o.a, o.b, SnipF)
+        devs == {f \in DevFlags : Dev_OfF(f, o.a, o.b, SnipF)}
     IN /\ Chk(real = mf, o.tid, "drift:protocol_snippet")
-       /\ Chk(~Unsound(o.a, o.b, real), o.tid, IF real = mf THEN FreshClass(o.a, o.b) ELSE "viol:Sound")
+       /\ Chk(~Unsound(o.a, o.b, real), o.tid,
+              IF real = mf /\ devs # {} THEN DevVerdict(CHOOSE f \in devs : TRUE) ELSE "viol:Sound")
 
 JudgeMembers(o) == Chk(o.isproto /\ RangeOf(o.real) = ImplProtoMembers(o.proto, RealF), o.tid, "drift:protocol_members")
 
@@ -72,7 +87,7 @@ JudgeRt(o) ==
 PTInit == l = 1 /\ PInit
 PTNext ==
     /\ l <= Len(Obs)
-    /\ CASE Obs[l].kind = "phist" -> JudgeSteps(Obs[l].steps, 1, {}, {}, Obs[l].tid)
+    /\ CASE Obs[l].kind = "phist" -> JudgeSteps(Obs[l].steps, 1, {}, {}, Obs[l].tid, << >>, << >>)
          [] Obs[l].kind = "psnip" -> JudgeSnip(Obs[l])
          [] Obs[l].kind = "pmembers" -> JudgeMembers(Obs[l])
          [] Obs[l].kind = "prt" -> JudgeRt(Obs[l])
